@@ -165,6 +165,17 @@ CHECKS = {
          'arrangement explored is enumerated, not sampled (quick: deterministic core + 24 sampled arrangements; thorough: all 1152).',
     note=TRUSTED + 'the stream doubles of vk/mon/c18.py; behaviour when close() itself raises is not demanded.',
     design='DESIGN.md section 3, C18'),
+ 'C07': dict(
+    technique='differential runtime monitor on the obfuscated vs un-obfuscated output of the same real printer, both resolved by an independent ES5 scope model (refscope): renaming must be a function on bindings and preserve the partition of occurrences',
+    level='exploration',
+    text='For scope-shape programs (nested named/anonymous functions, shadowing parameters, hoisted vars, catch parameters, labels, accessors, '
+         'free names equal to the first generated names, scopes with up to 3000 locals), derivations and the corpus, under 12 configurations '
+         '(obfuscate_globals x shadow_funcname x minify | minify+drop_semi | obfuscate+indent rules): token sequences must differ only in '
+         'identifier spellings; every binding gets one new name; re-resolving the obfuscated output gives the same partition of occurrences '
+         '(capture detection, labels included); free names, property names and protected globals unchanged; no generated name is reserved. '
+         'Hooks on NameGenerator/Obfuscator/Scope count what ran.',
+    note=TRUSTED + 'vk/ref/refscope.py (ES5 10.2/10.5/12.14/13, self-tested); programs with with/eval are out of scope and counted.',
+    design='DESIGN.md section 3, C07'),
 }
 
 PENDING = 'monitor planned in DESIGN.md section 3 but not built yet in this round; no claim is made'
